@@ -27,9 +27,11 @@ VARIABLES c
 
 FirstBytes == {0, 1, 2, 255}
 PSByte(i) == <<255, 1, 2, 128>>[(i % 4) + 1]                           \* non-zero filler with 01 and 02 among it
+\* wide blocks (k > 256 + 11): lengths and positions on both sides of 256, where length arithmetic kept in one octet would wrap
+Wide(lo, hi) == {x \in {hi - 257, hi - 256, hi - 255, hi - 254, lo + 254, lo + 255, lo + 256} : lo <= x /\ x <= hi}
 Pos(lo, hi) == IF hi - lo < FullBelow THEN lo..hi
-               ELSE {lo, lo + 1, lo + 6, lo + 7, lo + 8, lo + 9, lo + 10, (lo + hi) \div 2, hi - 2, hi - 1, hi}
-TailPos(L) == IF L <= FullBelow THEN 0..L ELSE {0, 1, 2, L \div 2, L - 1, L}
+               ELSE {lo, lo + 1, lo + 6, lo + 7, lo + 8, lo + 9, lo + 10, (lo + hi) \div 2, hi - 2, hi - 1, hi} \cup Wide(lo, hi)
+TailPos(L) == IF L <= FullBelow THEN 0..L ELSE {0, 1, 2, L \div 2, L - 1, L} \cup {x \in {255, 256, 257} : x <= L}
 SKinds == {"len0", "len1", "lenk", "lenk1", "object"}
 SentinelOf(sk, k) == CASE sk = "len0" -> <<>> [] sk = "len1" -> <<83>> [] sk = "lenk" -> Rep(83, k) [] sk = "lenk1" -> Rep(83, k + 1) [] sk = "object" -> <<>>
 
@@ -39,7 +41,7 @@ V15EM(d) == TLCEval(IF d.z = 0 THEN <<d.b1, d.b2>> \o [i \in 1..(d.k - 2) |-> PS
                     ELSE <<d.b1, d.b2>> \o [i \in 1..(d.z - 3) |-> PSByte(i)] \o <<0>> \o V15Tail(d.k - d.z, d.tz))
 V15Leaves(g) == UNION {{[fam |-> "v15", k |-> g.k, b1 |-> g.b1, b2 |-> g.b2, z |-> z, tz |-> tz] : tz \in (IF z = 0 THEN {0} ELSE TailPos(g.k - z))} : z \in Pos(3, g.k) \cup {0}}
 V15Exps(d) == LET L == d.k - d.z IN
-   {x \in {0, d.k - 11, d.k - 10, d.k + 5} \cup (IF d.z = 0 THEN {1} ELSE {L - 1, L, L + 1}) : x >= 0}
+   {x \in {0, d.k - 11, d.k - 10, d.k + 5} \cup (IF d.z = 0 THEN {1} ELSE {L - 1, L, L + 1, L + 256, L - 256}) : x >= 0}
 \* b"\x00" as the candidate message together with an expected length that no block can have is left out: an observed
 \* b"\x00" could then not be told apart from that candidate (the recorder's observations must name one clause)
 Distinguishable(d, x) == ~(x > d.k - 11 /\ d.z # 0 /\ d.k - d.z = 1 /\ d.tz = 1)
@@ -104,7 +106,7 @@ DbJson(d) == LET hl == HLenOf(d.hash)  bl == d.k - (2 * hl) - 1 IN
 
 \* ------------------------------------------------------------------ round trips, length limit
 MsgPat(n, a) == TLCEval([i \in 1..n |-> IF i % 5 = 2 THEN 0 ELSE ((a * i) + 1) % 256])                               \* zero octets inside (and b"\x00\x.." prefixes)
-RtLens(mx) == IF RtAll \/ mx <= FullBelow THEN 0..(mx + 1) ELSE {x \in {0, 1, 2, mx \div 2, mx - 1, mx, mx + 1, mx + 2, mx + 12} : x >= 0}
+RtLens(mx) == IF RtAll \/ mx <= FullBelow THEN 0..(mx + 1) ELSE {x \in {0, 1, 2, mx \div 2, mx - 1, mx, mx + 1, mx + 2, mx + 12} : x >= 0} \cup {x \in {255, 256, 257} : x <= mx + 1}
 Rt15Leaves(g) == {[fam |-> "rt15", k |-> g.k, ml |-> ml] : ml \in RtLens(V15MaxLen(g.k))}
 Rt15Ok(d) == LET M == MsgPat(d.ml, 3) IN
    /\ V15CanEncode(d.k, d.ml) <=> d.ml <= d.k - 11
@@ -140,6 +142,10 @@ RealShortKHs == {<<64, "SHA256">>, <<65, "SHA256">>, <<40, "SHA1">>, <<41, "SHA1
                  <<128, "SHA512">>, <<96, "SHA384">>}
 RealRtOaepKHs == {<<42, "SHA1", "mgf1">>, <<66, "SHA256", "mgf1">>, <<64, "SHA1", "mgf1">>, <<65, "SHA1", "mgf1">>, <<96, "SHA1", "mgf1">>, <<128, "SHA1", "mgf1">>, <<96, "SHA256", "mgf1">>, <<128, "SHA256", "mgf1">>,
                   <<64, "SHA256", "mgf1">>, <<64, "toy3", "toy">>, <<65, "toy2", "mgf1">>, <<128, "toy3", "mgf1">>, <<128, "SHA1", "toy">>}
+\* wide: k = 300 octets (a 2400-bit modulus), where message lengths and positions pass 256
+WideOaepKHs == {<<300, 2>>}
+WideDbKHs == {<<300, "SHA1">>}
+WideRtOaepKHs == {<<300, "toy2", "mgf1">>, <<300, "SHA1", "mgf1">>, <<300, "toy3", "toy">>}
 \* ------------------------------------------------------------------ the graph
 Groups ==
    {[fam |-> "g15", k |-> k, b1 |-> b1, b2 |-> b2] : k \in V15Ks, b1 \in FirstBytes, b2 \in FirstBytes} \cup
